@@ -70,6 +70,8 @@ pub enum Rw {
     AttrQuote,
     Decl,
     EmptyForm,
+    /// rename the prefix that an `xmlns:<p>` attribute of the element declares (declaration and uses)
+    AttrNsPrefix,
 }
 
 impl Rw {
@@ -83,6 +85,7 @@ impl Rw {
             Self::AttrQuote => "attribute-quote",
             Self::Decl => "xml-declaration",
             Self::EmptyForm => "empty-element-form",
+            Self::AttrNsPrefix => "attribute-namespace-prefix",
         }
     }
 }
@@ -177,6 +180,20 @@ impl<'a> Ser<'a> {
         out.push('<');
         out.push_str(&qname);
         let mut attrs: Vec<(String, String)> = e.attrs.clone();
+        // prefixes declared on this element for its own attributes may be renamed
+        let declared: Vec<String> = attrs.iter().filter_map(|(k, _)| k.strip_prefix("xmlns:").map(str::to_string)).collect();
+        for (n, p) in declared.iter().enumerate() {
+            if self.site(Rw::AttrNsPrefix, &format!("{}@xmlns:{p}", e.name)) {
+                let q = format!("r{n}{p}x");
+                for (k, _) in &mut attrs {
+                    if *k == format!("xmlns:{p}") {
+                        *k = format!("xmlns:{q}");
+                    } else if let Some(rest) = k.strip_prefix(&format!("{p}:")) {
+                        *k = format!("{q}:{rest}");
+                    }
+                }
+            }
+        }
         attrs.extend(decls);
         if attrs.len() >= 2 && self.site(Rw::AttrOrder, &e.name) {
             attrs.reverse();
@@ -255,7 +272,7 @@ pub fn canonical(root: &E) -> String {
     Ser::new(Style::Canonical).document(root)
 }
 
-pub const ALL_RW: [Rw; 8] = [Rw::NsPrefix, Rw::WsBetween, Rw::WsToken, Rw::Comment, Rw::AttrOrder, Rw::AttrQuote, Rw::Decl, Rw::EmptyForm];
+pub const ALL_RW: [Rw; 9] = [Rw::NsPrefix, Rw::WsBetween, Rw::WsToken, Rw::Comment, Rw::AttrOrder, Rw::AttrQuote, Rw::Decl, Rw::EmptyForm, Rw::AttrNsPrefix];
 
 // ---------------------------------------------------------------------------------------------
 // rpc-error generator (shared by C08, C13, C14)
